@@ -918,6 +918,33 @@ func (w *world) check(step int, o []int, errFlag, n int, fired bool, pre, post *
 		}
 	case opHeartbeat, opTick, opBreakWrites:
 		same("Heartbeat/Tick")
+	case opReReg, opRegClaim, opReRegNew:
+		// Re-registration of a ConnID that already has a record is a REPLACEMENT: it never evicts anyone (also not at the
+		// connection limit), the counts do not move, every other registered connection stays registered with its transport
+		// open, and a replacement wrapping the same stream leaves that stream open.  (On a tree without
+		// fixes/C07-register-replace-shared-stream.diff these are the recorded defect of that tree.)
+		const rk = "register-replace-closes-shared-stream"
+		if old := pre.reg[c]; old != nil && pre.sess[c] && !pre.closed[c] {
+			for cn, cc := range pre.reg {
+				if cn == c {
+					continue
+				}
+				if post.reg[cn] != cc {
+					addk("rereg-evicts", true, rk, "re-registration of %s (which already had a record) evicted %s; control count %d -> %d", cname(c), cname(cn), pre.cnt[1], post.cnt[1])
+				} else if !pre.closed[cn] && post.closed[cn] {
+					addk("rereg-closes-other", true, rk, "re-registration of %s closed the transport of %s", cname(c), cname(cn))
+				}
+			}
+			if post.cnt != pre.cnt {
+				addk("rereg-count", true, rk, "re-registration of %s (which already had a record) changed the counts %v -> %v", cname(c), pre.cnt, post.cnt)
+			}
+			if post.reg[c] == nil || post.reg[c] == old {
+				add("rereg-not-replaced", false, "re-registration of %s: GetControlConnection does not return the replacement", cname(c))
+			}
+			if code != opReRegNew && post.closed[c] {
+				addk("rereg-closes-own-stream", true, rk, "re-registration of %s closed the transport the replacement shares with the old record: GetControlConnection(%s) returns a connection whose transport is closed", cname(c), cname(c))
+			}
+		}
 	}
 	// removed connections are never returned again
 	for d := range w.dead {
